@@ -97,8 +97,15 @@ func memoSequential(r *rng, g *storeGen, n int, hist map[string]int) {
 				if needO {
 					o = t.Object()
 				}
-				for _, d := range []time.Duration{0, 1, -1, 400 * time.Millisecond, -400 * time.Millisecond, 0} {
-					b := a.Add(d)
+				// … and two instants whose clocks read alike in zones one and two seconds east of Greenwich (a zone offset
+				// is printed to the minute: the bound is the instant, not its printed form)
+				la := a.UTC().Add(1500 * time.Millisecond)
+				east := func(sec int) time.Time {
+					return time.Date(la.Year(), la.Month(), la.Day(), la.Hour(), la.Minute(), la.Second(), la.Nanosecond(), time.FixedZone("", sec))
+				}
+				bounds := []time.Time{a.Add(0), a.Add(1), a.Add(-1), a.Add(400 * time.Millisecond), a.Add(-400 * time.Millisecond), a.Add(0), east(2), east(1), east(2)}
+				for _, b := range bounds {
+					b := b
 					lo := &storage.LookupOptions{}
 					if r.chance(1, 2) {
 						lo.LowerAnchor = &b
